@@ -14,7 +14,9 @@ THEOREMS = ["edge_shared_by_two", "split_inv", "swap_inv", "collapse_inv", "rena
             "split_chi", "swap_chi", "collapse_chi", "rename_chi", "step_chi", "reach_chi",
             "collapse_closed_unconditional", "split_volume", "genus0_start",
             "split_refines", "swap_refines", "concrete_split_inv", "concrete_swap_inv",
-            "split_checks_sound", "swap_checks_sound"]
+            "split_checks_sound", "swap_checks_sound",
+            "merge_refines", "merge_refines_manifold", "concrete_merge_inv", "merge_checks_sound", "merge_checked",
+            "merge_keeps_index", "split_keeps_index", "swap_keeps_index", "index_sound_of_complete", "merge_nonvacuous"]
 GEN = ["RemeshConsts"]
 
 
@@ -76,7 +78,7 @@ def run(ctx):
         "obligations": proof["obligations"], "discharged": proof["discharged"],
         "checker_cmd": "lake build SimuVerif.Properties.C01 SimuVerif.Audit.C01 drv_c01 (+ leanchecker in the thorough tier)",
         "trusted_base": vlib.TRUSTED_COMMON + [
-            "link concrete bookkeeping model (Model/Remesh.lean) -> abstract operations (Model/Surface.lean): PROVED for split and swap (split_refines, swap_refines; their hypotheses FaceFreeOk / EdgeFaces / EdgeIdxSound are run-time checked), validated on every executed operation by the driver (absok) for the collapse",
+            "link concrete bookkeeping model (Model/Remesh.lean) -> abstract operations (Model/Surface.lean): PROVED for split, swap and collapse (split_refines, swap_refines, merge_refines; their hypotheses are run-time checked: FaceFreeOk / EdgeFaces / EdgeIdxSound for split and swap, chkMergeHyps = complete edge index + vertex-manifold end nodes + link condition for the collapse, counted in statistics.merge_refinement_hyps_held / _not_met); additionally validated on every executed single operation by the driver (absok)",
             "geometric self-intersection and the floating-point behaviour of the length tests are not modelled"],
         "theorems": proof["axioms"], "proof_failures": proof["failures"], "translator": gen,
         "evaluations": st["lines"], "distinct_nontrivial": res["distinct"],
